@@ -36,6 +36,16 @@ unsigned choose( unsigned n ) noexcept;
 
 // logical clock (one tick per call), used to stamp invocation/response events
 uint64_t stamp() noexcept;
+// Invocation stamp of an operation the calling thread is about to start: *slot receives the clock value at the moment the thread
+// executes its next scheduling point (or calls stamp()), not now. An operation cannot observe or change shared state before its
+// first atomic step, so a real execution in which the call was made at that later moment behaves identically: the later stamp is
+// sound, and it orders the operation after everything that completed while the thread was descheduled "between" two operations.
+// *slot must stay valid until then.
+void stamp_inv( uint64_t* slot ) noexcept;
+// The harness's allocator reports a block it has released (and keeps mapped until the execution ends, so that the address is not
+// reused): from now on every instrumented access (atomic operation, lock) inside the block is a violation 'use-after-free'.
+// The list is cleared when the next execution starts. 'what' must be a string literal.
+void region_freed( const void* p, size_t n, const char* what ) noexcept;
 
 // Identity of the calling participant (0 = controller, 1..N workers, then background threads); -1 if none
 int self_id() noexcept;
